@@ -435,7 +435,7 @@ def write_evidence(prop: str, tier: str, seed: int, t0: float, scen: dict, stats
 RULES = {
     "C14": "scenario = seeded abstract world (1-3 mixed graphs n<=7, acyclic or cyclic, isolated and bidirected-only nodes) + per-round scripts of the 15 surgery operations for 2-4 callers + evolve steps; each scenario is executed by 4 worker interpreters (distinct PYTHONHASHSEED, distinct construction history) and in each as 3 populations (sequential baseline, interleaved, interleaved+aborts); evaluations = scenario executions; a (scenario, worker) pair is non-trivial iff at least one context switch or abort landed inside an operation (at a y0 line event, not at an operation boundary); distinct = distinct (scenario id, worker id)",
     "C02": "scenario = seeded ADMG(s) n<=6 + 1-3 queries (X,Y disjoint non-empty) whose set/Query/Identification objects are shared by 2-4 callers running identify_outcomes/identify (and read-only surgery ops) ; executed by 4 workers (distinct hash seed + construction history) x 2 populations (sequential, interleaved); every third scenario id is instead a *sweep* scenario: one caller, no pre-emption, up to 70 distinct (X, Y) queries (1-3 treatments, 1-3 outcomes) on one ADMG n<=7, executed by the same 4 workers, which buys volume for the reference-model and cross-interpreter oracles; non-trivial iff a context switch landed inside an operation (sweep scenarios never are); distinct = distinct (scenario id, worker id)",
-    "C04": "scenario = seeded acyclic ADMG(s) n<=7 (plus nodes added by evolve steps) + per-round scripts of are_d_separated(a, b | C) queries (35 % asked in both argument orders; conditioning sets biased toward endpoints of bidirected edges and their descendants; conditions passed as set/frozenset/list/tuple/None/list with duplicates) and read-only surgery ops for 2-4 callers on the shared graph objects, evolve steps between rounds; executed by 4 workers (distinct PYTHONHASHSEED, distinct construction history and constructor) x 3 populations (sequential baseline, interleaved, interleaved+aborts); every third scenario id is instead a *sweep* scenario (one caller, no pre-emption, 60 queries on one ADMG n<=8, same 4 workers); non-trivial iff a context switch or abort landed inside an operation (sweep scenarios never are); distinct = distinct (scenario id, worker id)",
+    "C04": "scenario = seeded acyclic ADMG(s) n<=7 (plus nodes added by evolve steps) + per-round scripts of are_d_separated(a, b | C) queries (35 % asked in both argument orders; conditioning sets biased toward endpoints of bidirected edges and their descendants; conditions passed as set/frozenset/list/tuple/None/list with duplicates) and read-only surgery ops for 2-4 callers on the shared graph objects, evolve steps between rounds (1-3 random builder calls and/or one edge aimed between two nodes inside the ancestral set of an already-asked question, which is asked again first thing in the next round); executed by 4 workers (distinct PYTHONHASHSEED, distinct construction history and constructor) x 3 populations (sequential baseline, interleaved, interleaved+aborts); every third scenario id is instead a *sweep* scenario (one caller, no pre-emption, 60 queries on one ADMG n<=8, same 4 workers); non-trivial iff a context switch or abort landed inside an operation (sweep scenarios never are); distinct = distinct (scenario id, worker id)",
     "C11": "case = seeded expression recipe (depth<=4, <=6 fresh variable names) with 2-5 presentation permutations and an ordering; executed by 4 workers with distinct PYTHONHASHSEED; non-trivial iff at least two different iteration orders of the case's variable set were actually observed among the workers that ran it; every fifth case id is instead a *concurrent-callers* scenario: 2-3 callers canonicalise related expressions (shared names, permuted presentations, near-duplicates, different orderings) under the seeded baton scheduler (uniform / PCT / hot policies), and every result must equal the one of the sequential pass in the same interpreter; distinct = distinct case id",
 }
 ASSUMPTIONS = {
